@@ -1,13 +1,45 @@
 # Claims table: executed by gen_manifest.py. One claim() per property the analyser decides.
-T = "static analysis over type-checked SSA (go/packages+go/ssa): "
+T = "static analysis over type-checked SSA (go/packages+go/ssa, x/tools v0.29.0): "
+TRUST = "Trusted: go/types+go/ssa lowering; VTA call graph restricted to repository packages; state-module mutators do what their names say. "
 
 claim("C03", T + "gate-dominates-effect, never-after and must-pass-through rules over the 37 live Run methods and RunTx",
       "Decides on every CFG path of every live handler that state mutators lie inside the deliver-only region, that no rejecting return is reachable after the first mutator, that every accepted deliver path sets the signer's nonce to tx.Nonce, that no other code writes nonces, and that RunTx's failure branch performs only whitelisted, balance-capped fee effects on the payer. A structural necessary condition, not the behaviour: amounts and module internals are not decided.",
-      "Trusted: go/types+go/ssa lowering; module mutators do what their names say; panics inside a deliver block are C07's concern.",
-      "DESIGN.md §4 C03")
+      TRUST + "Panics inside a deliver block are C07's concern.", "DESIGN.md §4 C03")
+
+claim("C04", T + "gate recognition with exact constant/relation normal forms (chain id, nonce+1) dominating the dispatch; field-writer rule on the nonce register",
+      "Decides that the dispatch to Run is dominated by `tx.ChainID == CurrentChainID` and by the exact test `GetNonce(tx.Sender())+1 == tx.Nonce`, that every accepted path stores tx.Nonce for the signer, and that GetNonce/SetNonce read/write the Nonce field with no other writer. Accepted ⇒ stored+1 = nonce ∧ stored' = nonce, hence replays and stale nonces meet the gate. Not decided: hash collisions.",
+      TRUST, "DESIGN.md §4 C04")
+
+claim("C08", T + "call-graph reachability from the ABCI entry points + AST idiom classification of every map range + forbidden-source inventory",
+      "Decides, over all repository code reachable from InitChain/BeginBlock/DeliverTx/EndBlock/Commit, that every map range is order-insensitive by a recognised idiom (collect-then-sort, commutative fold, keyed insert/delete, unique-match search, loop-invariant assignment) with an explicit table of confirmed order-neutral callees, and that no wall-clock/random/env/goroutine/select source is reachable except confirmed statistics/shutdown sites. Necessary conditions only: library nondeterminism and unsynchronised reads are not decided.",
+      TRUST + "The orderNeutral callee table and the source exception table were confirmed by reading.", "DESIGN.md §4 C08")
+
+claim("C09", T + "cache-coherence rule on AppDB (saver guard flags vs mutators), key agreement, saver reachability from Commit, classification of Blockchain's volatile fields",
+      "Decides that every cached AppDB record is saved under guards that every mutator arms, is saved from Commit when block execution can mutate it, is loaded from the key it is saved to, and that every field of minter.Blockchain is configuration, rebuilt by initState, or block-local. Found and repaired the emission dirty-flag defect. Not decided: equality of reloaded module caches with in-memory ones.",
+      TRUST, "DESIGN.md §4 C09")
+
+claim("C10", T + "dominance ordering of the commit path's durable writes; write-set inventory after the height marker (known findings)",
+      "Decides the order Check ≺ CommitEvents ≺ State.Commit ≺ SetLastBlockHash ≺ SetLastHeight, provenance of the stored hash/height, saver.Commit ≺ SaveVersion ≺ SetImmutableTree, that every state module is handed to tree.Commit, that Info reports the persisted pair; reports every durable app-DB write after the height marker — five exist today and are recorded as known findings (genuine crash windows), any other is a violation. Not decided: iavl/goleveldb durability.",
+      TRUST, "DESIGN.md §4 C10")
+
+claim("C11", T + "field coverage (writer in exporter-reachable code, reader in importer-reachable code) over AppState and nested structs; map-range order rule on Export code",
+      "Decides that every field of types.AppState and its nested structs is written by export-reachable code and read by import-reachable code (found and repaired: HaltBlocks never imported), and that Export's map iterations are order-insensitive. Not decided: Verify(), value equality, behaviour of the new chain.",
+      TRUST + "Exemptions (Note, legacy Version, opaque BitArray) are listed with reasons in c11.go.", "DESIGN.md §4 C11")
+
+claim("C20", T + "recognition of the exact strict 3·voted > 2·total normal form over big.Int with float-taint check on the decision slice; gate rules on vote handlers",
+      "Decides that each vote-based accepting return of the three tally functions is governed by the exact strict integer test against blockchain.totalPower with no float in its data dependences (found and repaired: float64(2./3.) threshold), that leader replacement is strict, that stop/SetNewCommissions/AddVersion are gated by the tally, and that vote handlers reject past heights, duplicates and non-owners and record under the key the duplicate test reads. Not decided: that validatorsPowers holds the right stakes.",
+      TRUST, "DESIGN.md §4 C20")
+
+claim("C26", T + "must-pass-through (debit ⇒ replay guard advanced) over deliver-mode RunTx and the live Runs; free-rejection rule for pre-dispatch returns",
+      "Decides that every accepted path advances the signer's nonce, that every pre-dispatch rejection executes no mutator, and that every payer debit inside RunTx is followed by a replay-guard advance. The failure-fee debit is not: a genuine violation recorded as a known finding (same failed bytes are charged on every redelivery; reproduced). Any other unguarded debit is reported.",
+      TRUST + "Tendermint's mempool cache is outside the repository and not relied on.", "DESIGN.md §4 C26")
+
+claim("C29", T + "table agreement (AppDB keys = Snapshot list = Restore cases), WaitGroup ordering rules, loader cache rule",
+      "Decides that the record set used by the AppDB equals what Snapshot exports and Restore accepts, that every store write waits for a running snapshot, that Snapshot reads before releasing and releases on every return, that Commit raises the WaitGroup before spawning the snapshot, that loaders never cache empty reads, and the C09 dirty-flag rule. Not decided: IAVL export/import, chunking, later behaviour.",
+      TRUST, "DESIGN.md §4 C29")
 
 PENDING = "check not built yet in this round; see DESIGN.md §4 for the planned static rule"
-for p in ["C01","C02","C04","C05","C06","C07","C08","C09","C10","C11","C13","C14","C15","C16","C17","C18","C19","C20","C21","C22","C23","C24","C25","C26","C27","C28","C29"]:
+for p in ["C01","C02","C05","C06","C07","C13","C14","C15","C16","C17","C18","C19","C21","C22","C23","C24","C25","C27","C28"]:
     if p not in CLAIMS:
         NOT_APPLICABLE[p] = PENDING
 NOT_APPLICABLE["C12"] = "Bancor formula accuracy is a numeric error bound over big.Float Exp/Log for all supplies/reserves/ratios; no clause of it is visible in the shape of the code, and bounding floating-point error is outside static analysis as available here (DESIGN.md §5)."
